@@ -63,7 +63,13 @@ func NewValue(typ *meta.Type, v interface{}) (val.Value, error) {
 	if v == nil {
 		return nil, nil
 	}
-	switch typ.Format() {
+	return newValue(typ, typ.Format(), v)
+}
+
+// newValue converts to format f of the given type. f differs from the type's own
+// format only for a leaf-list of leafrefs where the resolved type is a single value.
+func newValue(typ *meta.Type, f val.Format, v interface{}) (val.Value, error) {
+	switch f {
 	case val.FmtIdentityRef:
 		return toIdentRef(typ.Base(), v)
 	case val.FmtIdentityRefList:
@@ -77,14 +83,17 @@ func NewValue(typ *meta.Type, v interface{}) (val.Value, error) {
 		return cvt, err
 	case val.FmtUnionList:
 		return toUnionList(typ, v)
-	case val.FmtLeafRef, val.FmtLeafRefList:
+	case val.FmtLeafRef:
 		return NewValue(typ.Resolve(), v)
+	case val.FmtLeafRefList:
+		resolved := typ.Resolve()
+		return newValue(resolved, resolved.Format().List(), v)
 	case val.FmtBitsList:
 		return toBitsList(typ.Bits(), v)
 	case val.FmtBits:
 		return toBits(typ.Bits(), v)
 	}
-	return val.Conv(typ.Format(), v)
+	return val.Conv(f, v)
 }
 
 func toIdentRef(bases []*meta.Identity, v interface{}) (val.IdentRef, error) {
